@@ -1,10 +1,10 @@
 """Double-array builder rule groups (both variants): DA-EDGE, DA-BASE, B-EXT, B-FAIL, B-OPOS(set),
 B-LEN, B-PAIR, B-BASE, B-MAP, B-MOVE, KNOB-SAN1/2/3, KNOB-CONF, KNOB-CW, NFA-DISPATCH, STAT-NS(builder),
 VALID-NONEMPTY(builder), VALID-CONV, VALID-ENTRY, VAL-IDX."""
-from . import core
+from . import core, cond, pat
 from .core import Callee, walk, show, mk_phi
 from .view import FnView, pnorm, mk_payload, OPTION, RESULT
-from .pat import m, ANY, V, K, Par, C, F, E, P, B, Phi, OneOf, members
+from .pat import m, ANY, V, K, Par, C, F, E, P, B, Phi, OneOf, members, It
 from .search import opt_arms, bool_arms, switches_on, is_const, self_param
 from .nfa import _vec_effects, VEC_PUSH, VEC_LEN
 
@@ -406,7 +406,7 @@ def rule_find_base(ctx, R, NR, BR):
         b = r.find_base
         S = Sites(lib, b)
         ret = pnorm(S.fv.resolve(S.root.ret()))
-        vac = P(C(ITER_NEXT, C(endswith("::vacant_iter"), Par(3))))
+        vac = It(C(endswith("::vacant_iter"), Par(3)))
         first = E(Par(2), K(0)) if tag == "bw" else F(E(Par(2), K(0)), "0", "(tuple)")
         cand = B("BitXor", vac, first)
         vcall = C(lambda k: True, cand, Par(2), Par(3))
@@ -426,6 +426,13 @@ def rule_find_base(ctx, R, NR, BR):
         ctx.check(okr, "DA-BASE", vb, "verifier-returns:" + tag, vb.span,
                   "the verifier returns None or NonZero::new(base) for the base it was given; returns %s" % show(vret))
         pulls = [s for s in VS.keyed(lambda k: core.callee_base(k) == ITER_NEXT) if m(Par(2), s["args"][0])]
+        quants = [s for s in VS.keyed(lambda k: core.callee_base(k) in ("core::iter::Iterator::any", "core::iter::Iterator::all"))
+                  if s["vw"] is VS.root]
+        if not pulls and len(quants) == 1:
+            _verify_quantified(ctx, lib, vb, VS, quants[0], tag)
+            if tag == "bw":
+                _verify_used_base(ctx, vb, VS, tag)
+            continue
         okp = len(pulls) == 1
         ctx.check(okp, "DA-BASE", vb, "tests-every-label:" + tag, vb.span,
                   "the verifier must iterate over the whole label slice it is given (no sub-slice, no early stop)")
@@ -455,17 +462,64 @@ def rule_find_base(ctx, R, NR, BR):
                 ctx.check(okg, "DA-BASE", vb, "used-slot-rejects:" + tag, vb.span,
                           "a used slot must reject the base; the base is accepted only after every label was tested")
         if tag == "bw":
-            ub = VS.named("is_used_base", HELPER)
-            oku = len(ub) == 1 and m(Par(1), ub[0]["args"][1])
-            if oku:
-                sw = switches_on(VS.root, lambda d: d[0] == "call" and d[3] == (vb.path, ub[0]["bb"]))
-                oku = len(sw) == 1
-                if oku:
-                    tt, ff = bool_arms(sw[0][1])
-                    somes = [s["bb"] for s in VS.keyed(lambda k: core.callee_base(k) == "core::num::NonZero::new")]
-                    oku = not any(sb in vb.reach(tt) for sb in somes)
-            ctx.check(oku, "DA-BASE", vb, "used-base-rejected:" + tag, vb.span,
-                      "bw: a base that is already in use must be rejected (CHECK stores only the label, so bases must be unique)")
+            _verify_used_base(ctx, vb, VS, tag)
+
+
+def _verify_used_base(ctx, vb, VS, tag):
+    ub = VS.named("is_used_base", HELPER)
+    oku = len(ub) == 1 and m(Par(1), ub[0]["args"][1])
+    if oku:
+        sw = switches_on(VS.root, lambda d: d[0] == "call" and d[3] == (vb.path, ub[0]["bb"]))
+        oku = len(sw) == 1
+        if oku:
+            tt, ff = bool_arms(sw[0][1])
+            somes = [s["bb"] for s in VS.keyed(lambda k: core.callee_base(k) == "core::num::NonZero::new")]
+            oku = not any(sb in vb.reach(tt) for sb in somes)
+    ctx.check(oku, "DA-BASE", vb, "used-base-rejected:" + tag, vb.span,
+              "bw: a base that is already in use must be rejected (CHECK stores only the label, so bases must be unique)")
+
+
+def _verify_quantified(ctx, lib, vb, VS, q, tag):
+    """the verifier written with an iterator quantifier: `labels.iter().any(|l| helper.is_used_index(base ^ l))` -> None, or
+    `.all(|l| !helper.is_used_index(base ^ l))` -> Some.  Same three obligations as the loop form."""
+    recv = q["args"][0]
+    okp = m(Par(2), pat.strip_iter(pat.iter_origin(recv)))
+    ctx.check(okp, "DA-BASE", vb, "tests-every-label:" + tag, vb.span,
+              "the verifier must iterate over the whole label slice it is given (no sub-slice, no early stop)")
+    if not okp:
+        return
+    cl = q["args"][1]
+    cr = VS.fv.closure_ret(cl[1]) if cl[0] == "closure" else None
+    item = ("item", recv)
+    lab = (lambda t, e: core.same(t, item)) if tag == "bw" else F(lambda t, e: core.same(t, item), "0", "(tuple)")
+    ui = VS.named("is_used_index", HELPER)
+    oku = len(ui) == 1 and cr is not None and m(Par(3), ui[0]["args"][0]) and m(B("BitXor", Par(1), lab), ui[0]["args"][1])
+    ctx.check(oku, "DA-BASE", vb, "slot-test:" + tag, vb.loc(q["bb"]),
+              "for every label the slot base^label must be tested with is_used_index; found %s" % [show(a) for s in ui for a in s["args"][1:]])
+    if not oku:
+        return
+    is_any = core.callee_base(q["key"]).endswith("::any")
+
+    def used(t):
+        return t[0] == "call" and isinstance(t[1], str) and t[1].endswith("::is_used_index")
+    x_used = cond.Explorer(VS.root, [(used, True)]).eval_term(pnorm(cr))
+    x_free = cond.Explorer(VS.root, [(used, False)]).eval_term(pnorm(cr))
+    okq = (x_used is True and x_free is False) if is_any else (x_used is False and x_free is True)
+    # the quantifier's result: conflict <=> any == true / all == false
+    conflict_val = is_any
+    qsite = (vb.path, q["bb"])
+
+    def qres(t):
+        return t[0] == "call" and t[3] == qsite
+    nones = {bi for bi, si, st in vb.stmts() if st["k"] == "assign" and st["lhs"]["local"] == 0 and not st["lhs"]["proj"] and
+             st["rv"]["k"] == "aggregate" and st["rv"].get("variant") == "None"}
+    somes = {s["bb"] for s in VS.keyed(lambda k: core.callee_base(k) == "core::num::NonZero::new") if s["tj"]["dest"]["local"] == 0}
+    v_conf = cond.explore(VS.root, [0], [(qres, conflict_val)])
+    v_free = cond.explore(VS.root, [0], [(qres, not conflict_val)])
+    okg = okq and v_conf is not None and v_free is not None and bool(nones) and bool(somes) and \
+        not (v_conf & somes) and bool(v_conf & nones) and bool(v_free & somes)
+    ctx.check(okg, "DA-BASE", vb, "used-slot-rejects:" + tag, vb.span,
+              "a used slot must reject the base; the base is accepted only after every label was tested")
 
 
 # ----------------------------------------------------------------------------- init / extend / B-LEN / B-PAIR / KNOB
@@ -616,29 +670,37 @@ def rule_sanitiser(ctx, R, NR, BR):
     oks = len(sc) == 1 and m(E(F(Par(1), "states"), idx), sc[0]["args"][0]) and m(c, sc[0]["args"][1])
     ctx.check(oks, "KNOB-SAN3", b, "check-equals-byte", b.loc(sc[0]["bb"]) if sc else b.span,
               "CHECK := c must be written at unused_base ^ c; found %s" % [(show(s["args"][0]), show(s["args"][1])) for s in sc])
-    # guard: idx == ROOT || idx == DEAD || !is_used_index(idx)
+    # guard, in any source form (`a || b || !used`, De Morgan + continue, nested ifs): decided by evaluating the loop body under
+    # assumptions on the three atomic conditions (cond.explore)
     iu = S.named("is_used_index", HELPER)
-    okg = len(iu) == 1 and m(idx, iu[0]["args"][1])
-    if okg and sc:
-        sw = switches_on(S.root, lambda d: d[0] == "call" and d[3] == (b.path, iu[0]["bb"]))
-        okg = len(sw) == 1
-        if okg:
-            tt, ff = bool_arms(sw[0][1])
-            # used (true) arm must not reach set_check within the iteration
-            okg = sc[0]["bb"] not in b.reach(tt, avoid_blocks=[pulls[0]["bb"]]) and sc[0]["bb"] in b.reach(ff, avoid_blocks=[pulls[0]["bb"]])
-    if okg and sc:
-        tt_, ff_ = bool_arms(sw[0][1])
-        okg2 = pulls[0]["bb"] not in (b.reach(ff_, avoid_blocks=[sc[0]["bb"]]) - {ff_} if ff_ != sc[0]["bb"] else set())
-        ctx.check(okg2, "KNOB-SAN3", b, "every-vacant-slot-stamped", b.span,
+    okg = len(iu) == 1 and m(idx, iu[0]["args"][1]) and bool(sc)
+    psw = switches_on(S.root, lambda d: d[0] == "discr" and d[1][0] == "call" and d[1][3] == psite)
+    okg = okg and len(psw) == 1
+    if okg:
+        body_head = opt_arms(psw[0][1])[0]
+        pull = pulls[0]["bb"]
+        scb = sc[0]["bb"]
+        rets = b.return_blocks()
+        usite = (b.path, iu[0]["bb"])
+
+        def used(t):
+            return t[0] == "call" and t[3] == usite
+
+        def eq(cst):
+            return lambda t: t[0] == "bin" and t[1] == "Eq" and ((m(idx, t[2]) and is_const(t[3], cst)) or (m(idx, t[3]) and is_const(t[2], cst)))
+        ends = [pull] + rets
+        ctx.check(cond.must_pass(S.root, [body_head], [(used, False)], [scb], ends), "KNOB-SAN3", b, "every-vacant-slot-stamped", b.span,
                   "EVERY vacant slot unused_base ^ c gets CHECK := c (no further condition may let one keep its default CHECK)")
-    ctx.check(okg, "KNOB-SAN3", b, "only-vacant-or-reserved", b.span,
-              "only vacant slots (or the reserved ROOT/DEAD slots) may be overwritten: a used slot's CHECK must be kept")
-    # reserved slots: Eq(idx, ROOT) / Eq(idx, DEAD) arms lead to set_check
-    for const, nm in ((0, "root"), (1, "dead")):
-        sw = switches_on(S.root, lambda d: d[0] == "bin" and d[1] == "Eq" and ((m(idx, d[2]) and is_const(d[3], const)) or (m(idx, d[3]) and is_const(d[2], const))))
-        okc = len(sw) == 1 and sc and sc[0]["bb"] in b.reach(bool_arms(sw[0][1])[0], avoid_blocks=[pulls[0]["bb"]] + ([iu[0]["bb"]] if iu else []))
-        ctx.check(okc, "KNOB-SAN3", b, "reserved-%s-sanitised" % nm, b.span,
-                  "the reserved %s slot (marked used, holds no edge) must be sanitised too" % nm.upper())
+        ctx.check(cond.never_reaches(S.root, [body_head], [(used, True), (eq(0), False), (eq(1), False)], [scb], ends),
+                  "KNOB-SAN3", b, "only-vacant-or-reserved", b.span,
+                  "only vacant slots (or the reserved ROOT/DEAD slots) may be overwritten: a used slot's CHECK must be kept")
+        for const, nm in ((0, "root"), (1, "dead")):
+            ctx.check(cond.must_pass(S.root, [body_head], [(eq(const), True), (eq(1 - const), False), (used, True)], [scb], ends),
+                      "KNOB-SAN3", b, "reserved-%s-sanitised" % nm, b.span,
+                      "the reserved %s slot (marked used, holds no edge) must be sanitised too" % nm.upper())
+    else:
+        ctx.check(False, "KNOB-SAN3", b, "only-vacant-or-reserved", b.span,
+                  "the sanitiser must test is_used_index(unused_base ^ c) exactly once per byte and stamp through set_check")
     # every byte is visited: set_check not skipped by an early return inside the loop
     rets = b.return_blocks()
     sw = switches_on(S.root, lambda d: d[0] == "discr" and d[1][0] == "call" and d[1][3] == psite)
